@@ -391,6 +391,15 @@ func init() {
 			return Iface{t: it.t, v: dst}
 		},
 
+		// math/rand/v2.Uint32 (skiplist tower heights): a symbolic choice between a value that gives
+		// height 1 and one that gives height 2 with arenaskl's probability table
+		"math/rand/v2.Uint32": func(m *Machine, fr *frame, a []Value) Value {
+			if m.chooseAmong(fr, 2, "rand.Uint32") == 0 {
+				return Const(32, 0xFFFFFFFF)
+			}
+			return Const(32, 0x40000000)
+		},
+
 		// rawalloc.New(len, cap): uninitialised bytes (modelled as zero, like make)
 		"github.com/cockroachdb/pebble/internal/rawalloc.New": func(m *Machine, fr *frame, a []Value) Value {
 			ln, cp := term(a[0]), term(a[1])
